@@ -45,9 +45,10 @@ theorem C07_success_keeps_written (s : Shard) (prog : Prog) (fault : Option Nat)
     (lookupCache (runBatch s prog fault).1.caches n).isSome = true :=
   C07_success_keeps_written_aux s prog fault h n hn
 
-/-- a fault position inside the program makes the batch report an error (so by `C07_atomic` nothing
-of it is visible): failing the k-th storage call for every k below the number of storage calls -/
-theorem C07_fault_reports_error (s : Shard) (prog : Prog) (k : Nat) (hk : k < (opsOf prog).length) :
+/-- a fault position inside the program OR AT ITS COMMIT makes the batch report an error (so by
+`C07_atomic` nothing of it is visible): failing the k-th storage call for every k below the number of
+storage calls, and k = that number: the commit step itself fails after the closure returned nil -/
+theorem C07_fault_reports_error (s : Shard) (prog : Prog) (k : Nat) (hk : k ≤ (opsOf prog).length) :
     (runBatch s prog (some k)).2 ≠ none :=
   C07_fault_reports_error_aux s prog k hk
 
@@ -57,12 +58,40 @@ theorem C07_rejection_reports_error (s : Shard) (prog : Prog) (fault : Option Na
     (h : allChecksPass prog = false) : (runBatch s prog fault).2 ≠ none :=
   C07_rejection_reports_error_aux s prog fault h
 
-/-- no failing step and no fault inside the program: the batch reports success (so by `C07_atomic`
-all of its effects are visible) -/
+/-- no failing step, no fault inside the program and none at its commit: the batch reports success
+(so by `C07_atomic` all of its effects are visible) -/
 theorem C07_clean_run_succeeds (s : Shard) (prog : Prog) (fault : Option Nat)
-    (h : allChecksPass prog = true) (hf : ∀ k, fault = some k → (opsOf prog).length ≤ k) :
+    (h : allChecksPass prog = true) (hf : ∀ k, fault = some k → (opsOf prog).length < k) :
     (runBatch s prog fault).2 = none :=
   C07_clean_run_succeeds_aux s prog fault h hf
+
+/-- **The commit step itself fails** (fault position = number of storage calls, "after the last
+one"): the Write closure ran to completion and returned nil, then the storage refused the commit,
+rolled everything back and `Write` returned an error.  For every program whose steps all succeed:
+the batch reports the commit error, the disk is the pre-state, EVERY shared cache the batch wrote is
+gone from the manager (the running instance cannot answer from the rolled-back batch), every other
+cache is exactly as before. -/
+theorem C07_commit_fault_atomic (s : Shard) (prog : Prog) (h : allChecksPass prog = true) :
+    closureOk s prog (some (opsOf prog).length) = true ∧
+    (runBatch s prog (some (opsOf prog).length)).2 = some (.commit (opsOf prog).length) ∧
+    (runBatch s prog (some (opsOf prog).length)).1.disk = s.disk ∧
+    (∀ n, n ∈ (cacheWritesOf prog).map (·.1) →
+        lookupCache (runBatch s prog (some (opsOf prog).length)).1.caches n = none) ∧
+    (∀ n, n ∉ (cacheWritesOf prog).map (·.1) →
+        lookupCache (runBatch s prog (some (opsOf prog).length)).1.caches n = lookupCache s.caches n) :=
+  C07_commit_fault_atomic_aux s prog h
+
+/-- Why the commit / abort of the cache transaction must be decided by THE ERROR OF `Write`: the
+variant `runBatchByClosureFlag` (decides from "the closure reached its end": a time stamp or flag set by
+the closure's last statement, or `defer cacheTx.Commit(err != nil)` evaluated before `Write` ran) is not
+atomic — when the commit step fails it reports the error with the disk rolled back, yet every cache
+the batch wrote is still in the manager.  (Proved negation of the property for that variant.) -/
+theorem C07_commit_by_closure_flag_not_atomic (s : Shard) (prog : Prog) (h : allChecksPass prog = true)
+    (n : String) (hn : n ∈ (cacheWritesOf prog).map (·.1)) :
+    (runBatchByClosureFlag s prog (some (opsOf prog).length)).2 = some (.commit (opsOf prog).length) ∧
+    (runBatchByClosureFlag s prog (some (opsOf prog).length)).1.disk = s.disk ∧
+    (lookupCache (runBatchByClosureFlag s prog (some (opsOf prog).length)).1.caches n).isSome = true :=
+  C07_commit_by_closure_flag_not_atomic_aux s prog h n hn
 
 /-- the three entry points with the real point-store programs: an error leaves the disk identical
 (duplicate ids are refused before any transaction starts and leave the instance untouched) -/
@@ -119,6 +148,17 @@ example : (runBatch exShard exProg none).1.caches = [("idx/vec", 9), ("idx/flat"
 example : (runBatch exShard (exProg ++ [.check .oversize false]) none).2 = some (.rejected .oversize) := by decide
 example : allChecksPass (exProg ++ [.check .oversize false]) = false := by decide
 example : allChecksPass exProg = true ∧ (opsOf exProg).length = 4 := by decide
+-- the commit fails after all 4 storage calls succeeded: error, disk identical, BOTH written caches gone
+example : closureOk exShard exProg (some 4) = true := by decide
+example : (runBatch exShard exProg (some 4)).2 = some (.commit 4) := by decide
+example : (runBatch exShard exProg (some 4)).1.disk = exDisk := by decide
+example : (runBatch exShard exProg (some 4)).1.caches = [("idx/flat", 6)] := by decide
+-- ... whereas the closure-flag variant keeps the rolled-back batch in the caches
+example : (runBatchByClosureFlag exShard exProg (some 4)).2 = some (.commit 4) ∧
+    (runBatchByClosureFlag exShard exProg (some 4)).1.disk = exDisk ∧
+    (runBatchByClosureFlag exShard exProg (some 4)).1.caches = [("idx/vec", 9), ("idx/flat", 6), ("idx/new", 1)] := by decide
+-- a fault position beyond the commit never fires
+example : (runBatch exShard exProg (some 5)).2 = none := by decide
 -- a crash at the second call leaves the pre-state, a crash after commit the post-state
 example : crashBatch exShard exProg (.atCall 1) = exDisk := by decide
 example : crashBatch exShard exProg .afterCommit = (runBatch exShard exProg none).1.disk := by decide
